@@ -11,8 +11,6 @@ use core::cmp;
 #[cfg(not(feature = "compact"))]
 use lexical_parse_integer::algorithm;
 use lexical_util::digit::char_to_valid_digit_const;
-#[cfg(feature = "radix")]
-use lexical_util::digit::digit_to_char_const;
 use lexical_util::format::NumberFormat;
 use lexical_util::iterator::{AsBytes, DigitsIter, Iter};
 use lexical_util::num::{AsPrimitive, Integer};
@@ -512,13 +510,13 @@ macro_rules! integer_compare {
         // Compare the integer digits.
         while !$num.data.is_empty() {
             // All digits **must** be valid.
+            // Compare digit values, not characters: letters can have either case.
             let actual = match $iter.next() {
-                Some(&v) => v,
+                Some(&v) => char_to_valid_digit_const(v, $radix),
                 // Could have hit the decimal point.
                 _ => break,
             };
-            let rem = $num.data.quorem(&$den.data) as u32;
-            let expected = digit_to_char_const(rem, $radix);
+            let expected = $num.data.quorem(&$den.data) as u32;
             $num.data.mul_small($radix as Limb).unwrap();
             if actual < expected {
                 return cmp::Ordering::Less;
@@ -551,13 +549,13 @@ macro_rules! fraction_compare {
         // We can only be here if we hit a decimal point.
         while !$num.data.is_empty() {
             // All digits **must** be valid.
+            // Compare digit values, not characters: letters can have either case.
             let actual = match $iter.next() {
-                Some(&v) => v,
+                Some(&v) => char_to_valid_digit_const(v, $radix),
                 // No more actual digits, or hit the exponent.
                 _ => return cmp::Ordering::Less,
             };
-            let rem = $num.data.quorem(&$den.data) as u32;
-            let expected = digit_to_char_const(rem, $radix);
+            let expected = $num.data.quorem(&$den.data) as u32;
             $num.data.mul_small($radix as Limb).unwrap();
             if actual < expected {
                 return cmp::Ordering::Less;
